@@ -147,9 +147,15 @@ def one(cs, j, which):
     if which in ("erc", "meanvar"):
         s.temp = {"selected": list(sel)}
         lb2 = pd.DateOffset(days=40)
+        budget = None
         try:
             if which == "erc":
-                algos.WeighERC(lookback=lb2, lag=lag)(s)
+                if len(sel) >= 2 and rng.random() < 0.5:
+                    # a risk budget per selected name, positionally aligned with temp['selected'] (whose order is not the universe's)
+                    budget = [float(x) for x in (0.1 + rs.dirichlet(np.ones(len(sel))))]
+                    budget = [b / sum(budget) for b in budget]
+                    w["risk_budget"] = dict(zip(sel, budget))
+                algos.WeighERC(lookback=lb2, lag=lag, risk_weights=(np.array(budget) if budget is not None else None))(s)
             else:
                 bounds = rng.choice([(0.0, 1.0), (0.05, 0.6), (0.0, 0.5)])
                 if len(sel) * bounds[1] < 1.0 or len(sel) * bounds[0] > 1.0:
@@ -174,7 +180,12 @@ def one(cs, j, which):
         if which == "erc":
             cov = sklearn.covariance.ledoit_wolf(rets)[0]
             rc = wv * (cov @ wv)
-            if not (abs(wv.sum() - 1) < 1e-9 and (wv >= 0).all() and (rc.max() - rc.min()) / rc.mean() < 1e-3):
+            if budget is not None:
+                share = rc / rc.sum()
+                if not (abs(wv.sum() - 1) < 1e-9 and (wv >= 0).all() and np.abs(share / np.array(budget) - 1).max() < 5e-3):
+                    return fail("non-negative, sum 1, risk contributions in proportion to the budget", got=out.to_dict(), risk_shares=share.tolist(), budget=budget, selected=list(sel))
+                sig = sig + ["budget"]
+            elif not (abs(wv.sum() - 1) < 1e-9 and (wv >= 0).all() and (rc.max() - rc.min()) / rc.mean() < 1e-3):
                 return fail("non-negative, sum 1, equal risk contributions", got=out.to_dict(), risk_contributions=rc.tolist())
         else:
             if not (abs(wv.sum() - 1) < 1e-6 and (wv >= bounds[0] - 1e-9).all() and (wv <= bounds[1] + 1e-9).all()):
